@@ -361,7 +361,19 @@ def main(path, default_bg, mode, premium):
             # We can just iterate through all rules that we parsed declarations for
             for rule in rules:
                 if id(rule) in rule_declarations_map:
-                    decls = rule_declarations_map[id(rule)]
+                    # Re-read the rule's current content (it may already carry a
+                    # colour fixed directly in :root/html) and copy the updated
+                    # custom property values onto it
+                    decls = tinycss2.parse_declaration_list(
+                        rule.content, skip_whitespace=False, skip_comments=False
+                    )
+                    for decl in decls:
+                        if (
+                            isinstance(decl, Declaration)
+                            and decl.name in variables
+                            and variables[decl.name].get("rule") is rule
+                        ):
+                            decl.value = variables[decl.name]["decl"].value
                     # Serialize back to component values
                     new_content_str = tinycss2.serialize(decls)
                     rule.content = tinycss2.parse_component_value_list(new_content_str)
